@@ -71,6 +71,7 @@ package pipeline
 //@     pure
 //@   callee MutateToBytesCopy(root, v)
 //@     requires dec == decoder.RAW ==> sameblock(v, bytes) && off(v) == off(bytes) && len(v) == ite(bytes[len(bytes) - 1] == '\n', len(bytes) - 1, len(bytes))
+//@     requires dec == decoder.CRI ==> sameblock(v, bytes) && off(bytes) <= off(v) && off(v) + len(v) <= off(bytes) + len(bytes)
 //@   callee DecodeCRI(b) (row, e)
 //@     pure
 //@     set g_undec := e != nil
